@@ -166,6 +166,40 @@ func checkRollbackSelection(p *Prog, r *Result) {
 				})
 			}
 			if idxList == nil {
+				// the per-node rollback as a function of its own: the index list is a parameter that a caller fills with the
+				// value of its loop over the failed index lists
+				T := topOf(fn)
+				for i := 0; T.Obj != nil && idxList == nil; i++ {
+					po := T.paramObj(i)
+					if po == nil {
+						break
+					}
+					sl, ok := po.Type().Underlying().(*types.Slice)
+					if !ok || !isIntLike(sl.Elem()) {
+						continue
+					}
+					for _, caller := range p.sortedFuncs("cluster/calcium") {
+						if caller.Body == nil || idxList != nil {
+							continue
+						}
+						for _, cc := range caller.calls(func(f *types.Func) bool { return f == T.Obj }) {
+							if i >= len(cc.Args) {
+								continue
+							}
+							ao := caller.objOf(cc.Args[i])
+							for f := caller; f != nil && ao != nil && idxList == nil; f = f.Parent {
+								ast.Inspect(f.Body, func(y ast.Node) bool {
+									if rs, ok := y.(*ast.RangeStmt); ok && rs.Value != nil && f.objOf(rs.Value) == ao && rs.Body.Pos() <= cc.Pos() && cc.End() <= rs.Body.End() {
+										idxList = po
+									}
+									return true
+								})
+							}
+						}
+					}
+				}
+			}
+			if idxList == nil {
 				return true
 			}
 			n++
